@@ -34,6 +34,15 @@ theorem C18_counterexample_list_delimiter :
 theorem C18_counterexample_list_max_keys :
     Differs [.createBucket bka, .putObject bka kA [1] none {} none, .putObject bka kB [2] none {} none,
       .listObjectsV2 bka none none none (some 1)] := by decide
+/-- fs:stale-metadata-after-copy -/
+theorem C18_counterexample_stale_metadata_after_copy :
+    Differs [.createBucket bka, .putObject bka kA [1] mdV {} none, .putObject bka kB [2] none {} none,
+      .copyObject bka kB bka kA, .getObject bka kA none] := by decide
+
+/-- fs:list-prefix-as-path (what is left of it since fe72881): leading slashes of the prefix are dropped -/
+theorem C18_counterexample_list_prefix_leading_slash :
+    Differs [.createBucket bka, .putObject bka kDE [1] none {} none, .listObjectsV2 bka (some [47, 100]) none none none] := by
+  decide
 
 /-- fs:directory-key -/
 theorem C18_counterexample_directory_key :
@@ -315,6 +324,26 @@ theorem C18_fixed_list_parts_ordered :
       .uploadPart alice bka kA (some 1) 2 [2, 2], .uploadPart alice bka kA (some 1) 10000 [],
       .uploadPart alice bka kA (some 1) 1 [1], .uploadPart alice bka kA (some 1) 2 [2],
       .listParts alice bka kA (some 1)]).2.getLast? = some (.parts [(1, 1), (2, 1), (4, 1), (10000, 0)]) := by decide
+/-- was fs:list-delimiter-not-rolled-up, fs:list-delimiter-rewrites-keys, fs:list-ignores-max-keys and the inner-slash part
+    of fs:list-prefix-as-path (fe72881; the witness histories of `corpus/fs.txt` first, v2 and v1): with a delimiter the keys
+    below it are rolled up into one common prefix, counted once; a delimiter other than `/` leaves the keys as they are;
+    `max-keys` cuts the listing and the answer says so; `d//e`, `d/./` are prefixes of no key -/
+theorem C18_fixed_list_parameters :
+    Same [.createBucket bka, .putObject bka kDE [1] none {} none, .putObject bka kDF [2] none {} none,
+      .listObjectsV2 bka none (some [47]) none none, .listObjects bka none (some [47]) none none] ∧
+    Same [.createBucket bka, .putObject bka kDE [1] none {} none, .listObjectsV2 bka none (some [45]) none none,
+      .listObjects bka none (some [45]) none none] ∧
+    Same [.createBucket bka, .putObject bka kA [1] none {} none, .putObject bka kB [2] none {} none,
+      .listObjectsV2 bka none none none (some 1), .listObjects bka none none none (some 1)] ∧
+    Same [.createBucket bka, .putObject bka kDE [1] none {} none, .listObjectsV2 bka (some kDsE) none none none,
+      .listObjectsV2 bka (some [100, 47, 46, 47]) none none none, .listObjects bka (some kDsE) none none none] ∧
+    (run H0 0 {} [.createBucket bka, .putObject bka kA [1] none {} none, .putObject bka kDE [1] none {} none,
+      .putObject bka kDF [2, 3] none {} none, .putObject bka kT [] none {} none,
+      .listObjectsV2 bka none (some [47]) none none, .listObjectsV2 bka none (some [47]) none (some 1),
+      .listObjectsV2 bka none (some [47]) (some kA) (some 1), .listObjectsV2 bka none (some [47]) (some kDF) (some 1),
+      .listObjectsV2 bka none (some [101]) none (some 0), .listObjectsV2 bka (some kDsE) none none none]).2.drop 5 =
+      [.listed [(kA, 1), (kT, 0)] 3 false [kDir], .listed [(kA, 1)] 1 true [], .listed [] 1 true [kDir],
+       .listed [(kT, 0)] 1 false [], .listed [] 0 true [], .listed [] 0 false []] := by decide
 
 /-- was fs:suffix-range-longer-than-object / fs:suffix-range-huge-panics: the model no longer fails or panics (the answer
     itself is compared by `C18_get_refines_partial`) -/
@@ -324,6 +353,6 @@ theorem C18_fixed_suffix_ranges :
       (fun r => r != .panic && r != .err .InternalError) = true := by decide
 
 /-- the unrestricted statement is false of the model (hence, by the correspondence runs, of the backend) -/
-theorem C18_full_false : ¬ C18_full := refutes C18_counterexample_list_max_keys
+theorem C18_full_false : ¬ C18_full := refutes C18_counterexample_key_normalised
 
 end S3V.C18
